@@ -29,6 +29,7 @@ func runC20(r *Report) {
 	c20FilesIndex(r)
 	c20FilesImmutable(r, "R1")
 	c20Exhaustive(r)
+	rangeExhaustive(r, "R2", func(f *ssa.Function) bool { pk := relPkg(f); return pk == "http" || pk == "fuse" }, 1)
 	c20R2(r)
 	c20R3(r)
 	c20R4(r)
